@@ -882,9 +882,14 @@ func (g *G) command(depth int) []ref.Node {
 						c.Vals = append(c.Vals, &ref.Lit{V: ref.Float(float64(v)), Src: fmt.Sprintf("%d.0", v)})
 					case 1:
 						c.Vals = append(c.Vals, &ref.Binary{Op: "+", L: lit(ref.Int(v - 1)), R: lit(ref.Int(1))})
+					case 2:
+						// a value computed from what is in scope (a case value is an expression like any other)
+						c.Vals = append(c.Vals, g.Expr(t, 1))
 					default:
 						c.Vals = append(c.Vals, lit(ref.Int(v)))
 					}
+				} else if g.R.P(1, 4) {
+					c.Vals = append(c.Vals, g.Expr(t, 1))
 				} else {
 					c.Vals = append(c.Vals, lit(ref.Str(g.pick(PlainStrings))))
 				}
